@@ -38,7 +38,7 @@ META = dict(
            'np.interp on symbolic x: clamped piecewise-linear model', 'np.log on symbolic reals: uninterpreted function',
            'np.sqrt: fresh s >= 0 with s*s == arg', 'division by a symbolic real: purified, divisor proved non-zero'],
     assumptions=['sensor laws as written in the property statement / NI documentation (see vf/checks/c17.py oracles)'],
-    buckets=dict(all=['rtd-quadratic', 'rtd-negative', 'thermistor', 'strain', 'polynomial', 'table']),
+    buckets=dict(all=['rtd-quadratic', 'rtd-negative', 'thermistor', 'strain', 'polynomial', 'table', 'purity']),
     replays_per_signature=3,
     validate_samples=0,
     explanation="Each path of the real scaling code ends in one QF_NRA obligation out == quantity; see MANIFEST text.",
@@ -61,6 +61,23 @@ def tasks(tier, seed):
     for order in ('inc', 'dec'):
         ts.append(dict(kind='table', order=order, n=3 if tier == 'quick' else 4))
     return ts
+
+
+PURITY_IS_AN_OBLIGATION = False      # purity belongs to C13's statement: C13 runs these harnesses with the flag set
+
+
+def _scale_pure(ctx, scaler, arr, what):
+    """scale and require that the input array object still holds the very same elements (no in-place arithmetic on
+    the caller's data; RealArray.astype(copy=False) returns the same array for float64 input like NumPy does)"""
+    before = [arr[i] for i in range(len(arr))]
+    out = scaler.scale(arr)
+    if PURITY_IS_AN_OBLIGATION:
+        ctx.obligations += 1
+        if any(arr[i] is not before[i] for i in range(len(arr))) or arr.tag != 'float64':
+            ctx.fail('scale-modifies-raw-data', scale=what)
+        ctx.discharged += 1
+    ctx.note('purity')
+    return out
 
 
 def _check(ctx, bad, what, describe):
@@ -153,7 +170,7 @@ def run_task(task):
         R = r0 * (1 + a * T + b * T * T)
         lead = {2: 2 * rl, 3: rl, 4: 0 * rl}[cfg]
         V = I * (R + lead)
-        out = s.scale(rarr([V]))
+        out = _scale_pure(ctx, s, rarr([V]), 'rtd')
         _check(ctx, out[0].e != T, 'rtd-quadratic', lambda m: _vals(m, names))
         ctx.note('rtd-quadratic')
 
@@ -226,7 +243,7 @@ def run_task(task):
             etype = sc.VOLTAGE_EXCITATION
         s = sc.ThermistorScaling(etype, SymReal(ex_), cfg, SymReal(r1), SymReal(rl), SymReal(a), SymReal(b), SymReal(c),
                                  SymReal(off), RAW)
-        out = s.scale(rarr([V]))
+        out = _scale_pure(ctx, s, rarr([V]), 'thermistor')
         expected = 1 / denom - off
         logs = getattr(ctx, 'logs', [])
         if len(logs) != 1:
@@ -265,7 +282,7 @@ def run_task(task):
         V = V0 + Vex * Vr
         s = sc.StrainScaling(BRIDGES[bridge], SymReal(nu), SymReal(Rg), SymReal(rl), SymReal(V0) if task['v0'] else 0.0,
                              SymReal(G), SymReal(gain), SymReal(Vex), RAW)
-        out = s.scale(rarr([V]))
+        out = _scale_pure(ctx, s, rarr([V]), 'strain')
         _check(ctx, out[0].e != e, 'strain', lambda m: _vals(m, names))
         ctx.note('strain')
 
@@ -279,7 +296,7 @@ def run_task(task):
         for i, c in enumerate(cs):
             props['NI_Scale[0]_Polynomial_Coefficients[%d]' % i] = SymReal(c)
         s = sc.PolynomialScaling.from_properties(props, 0)
-        out = s.scale(rarr([x]))
+        out = _scale_pure(ctx, s, rarr([x]), 'polynomial') if n else s.scale(rarr([x]))
         exp = z3.RealVal(0)
         for c in reversed(cs):
             exp = exp * x + c
@@ -371,7 +388,10 @@ def replay(art):
                   'quarter1': -G * ee / (4 + 2 * G * ee), 'quarter2': -G * ee / (4 + 2 * G * ee)}[bridge]
             V = v['V0'] + v['Vex'] * Vr
             s = sc.StrainScaling(BRIDGES[bridge], nu, v['Rg'], v['rl'], v['V0'], G, v['gain'], v['Vex'], RAW)
-            got = float(s.scale(np.array([V]))[0])
+            arr = np.array([V], dtype='float64')
+            got = float(s.scale(arr)[0])
+            if arr[0] != V and art.get('what') == 'scale-modifies-raw-data':
+                return dict(sig='C13/sensor-purity/scale-modifies-raw-data/strain', before=V, after=float(arr[0]), params=v)
             if not rel(got, v['strain']):
                 return dict(sig=signature(dict(task=task, what=what)), got=got, expected=v['strain'], params=v)
             return None
